@@ -53,7 +53,10 @@
 (* each parametrised by a tolerance t in units of 2^-26 (t = 0: exact, used *)
 (* for the lattice family whose values are all multiples of 1/2).  For the  *)
 (* lattice family LatticeCells / LatticePairs additionally compare the real *)
-(* grid with the unique expected structure of PART 1.                       *)
+(* grid with the unique expected structure of PART 1; for SCALED lattices   *)
+(* (n[i] cells on [0, L[i]], L rational: Cartesian grids with physical      *)
+(* dimensions / target cell sizes) the same comparison is made through the  *)
+(* scaled coordinate map ScaledLoc, within the float tolerance.             *)
 (***************************************************************************)
 EXTENDS Integers, Sequences, FiniteSets, SequencesExt, TLC
 
@@ -243,9 +246,8 @@ HostVolumeOK(In, O, t) ==
   /\ O.err = ""
   /\ LET H == {i \in 0..(Len(O.sds) - 1) : SD(O, i).dim = In.dim} IN
      /\ Cardinality(H) = 1
-     /\ \A i \in H : Close(SumSeq(SD(O, i).vol),
-                           In.box[1] * In.box[2] * (IF In.dim = 3 THEN In.box[3] ELSE 1) * FX,
-                           SumTol(t, SD(O, i).nc))
+     \* In.vol = <<num, den>>: the volume of the domain as a rational
+     /\ \A i \in H : Close(SumSeq(SD(O, i).vol), (In.vol[1] * FX) \div In.vol[2], SumTol(t, SD(O, i).nc))
 
 \* ---- clause 6: lower-dimensional cells lie on their fracture --------------------------------------------------
 \* a fracture is its integer vertex list V (2 end points in 2D; 4 corners of a planar convex polygon, in order, in 3D)
@@ -304,30 +306,48 @@ MortarMatch(In, O, t) ==
 \* ---- lattice family: the real grid IS the expected one -----------------------------------------------------
 OnLattice(x) == x[1] % HALF = 0 /\ x[2] % HALF = 0 /\ x[3] % HALF = 0
 Loc(x) == <<x[1] \div HALF, x[2] \div HALF, x[3] \div HALF>>
-LocSet(G) == {Loc(CC(G, c)) : c \in 0..(G.nc - 1)}
+\* The comparison is parametrised by the map Lc from a point to its doubled lattice coordinates and the test On
+\* that the point is a lattice point (unit lattice: Loc / OnLattice; scaled lattice: ScaledLoc / ScaledOn).
+LocSetW(G, Lc(_)) == {Lc(CC(G, c)) : c \in 0..(G.nc - 1)}
 GridsOfDim(O, d) == {i \in 0..(Len(O.sds) - 1) : SD(O, i).dim = d}
 SumNc(O, Is) == SumSeq([k \in 1..Len(O.sds) |-> IF (k - 1) \in Is THEN O.sds[k].nc ELSE 0])
-LatticeCells(N, O) ==
+LatticeCellsW(N, O, Lc(_), On(_)) ==
   /\ O.err = ""
-  /\ \A i \in 0..(Len(O.sds) - 1) : SD(O, i).dim \in 0..N.dim /\ \A c \in 0..(SD(O, i).nc - 1) : OnLattice(CC(SD(O, i), c))
+  /\ \A i \in 0..(Len(O.sds) - 1) : SD(O, i).dim \in 0..N.dim /\ \A c \in 0..(SD(O, i).nc - 1) : On(CC(SD(O, i), c))
   \* one host grid: the unit cubes of the box
   /\ Cardinality(GridsOfDim(O, N.dim)) = 1
-  /\ \A i \in GridsOfDim(O, N.dim) : LocSet(SD(O, i)) = Host(N) /\ SD(O, i).nc = Cardinality(Host(N))
+  /\ \A i \in GridsOfDim(O, N.dim) : LocSetW(SD(O, i), Lc) = Host(N) /\ SD(O, i).nc = Cardinality(Host(N))
   \* one grid per fracture: its unit cells
   /\ Cardinality(GridsOfDim(O, N.dim - 1)) = NF(N)
-  /\ {LocSet(SD(O, i)) : i \in GridsOfDim(O, N.dim - 1)} = {FracCells(N, k) : k \in 1..NF(N)}
-  /\ \A i \in GridsOfDim(O, N.dim - 1) : SD(O, i).nc = Cardinality(LocSet(SD(O, i)))
+  /\ {LocSetW(SD(O, i), Lc) : i \in GridsOfDim(O, N.dim - 1)} = {FracCells(N, k) : k \in 1..NF(N)}
+  /\ \A i \in GridsOfDim(O, N.dim - 1) : SD(O, i).nc = Cardinality(LocSetW(SD(O, i), Lc))
   \* intersection grids (their grouping into grids is not prescribed): every expected cell exactly once
   /\ \A d \in 0..(N.dim - 2) :
-       /\ UNION {LocSet(SD(O, i)) : i \in GridsOfDim(O, d)} = Level(N, d)
+       /\ UNION {LocSetW(SD(O, i), Lc) : i \in GridsOfDim(O, d)} = Level(N, d)
        /\ SumNc(O, GridsOfDim(O, d)) = Cardinality(Level(N, d))
-RealPairs(O) ==
+RealPairsW(O, Lc(_)) ==
   UNION {LET P == SD(O, I.pri)  S == SD(O, I.sec) IN
-         {<<Loc(CC(S, MC(I, m))), Loc(CC(P, OwnerCell(P, MF(I, m))))>> : m \in 1..I.nm}
+         {<<Lc(CC(S, MC(I, m))), Lc(CC(P, OwnerCell(P, MF(I, m))))>> : m \in 1..I.nm}
          : I \in Range(O.intfs)}
-LatticePairs(N, O) ==
+LatticePairsW(N, O, Lc(_)) ==
   /\ Readable(O)
   /\ \A I \in Range(O.intfs) : \A f \in CoupledFaces(I) : NumCellsOf(SD(O, I.pri), f) >= 1
-  /\ RealPairs(O) = Pairs(N)
+  /\ RealPairsW(O, Lc) = Pairs(N)
   /\ SumSeq([k \in 1..Len(O.intfs) |-> O.intfs[k].nm]) = Cardinality(Pairs(N))
+LatticeCells(N, O) == LatticeCellsW(N, O, Loc, OnLattice)
+LatticePairs(N, O) == LatticePairsW(N, O, Loc)
+
+\* ---- scaled lattices: n[i] cells on [0, L[i]], L[i] = num/den; sc[i] = <<n, num, den>> (<<0, 0, 1>>: flat direction) --
+\* doubled lattice coordinate of x: 2 n x / L, rounded (x coarsened to 2^-22 against overflow)
+ScY(x, s) == (x \div 16) * (2 * s[1] * s[3])
+ScU(s) == s[2] * (FX \div 16)
+ScLoc1(x, s) == IF s[1] = 0 THEN 0 ELSE (ScY(x, s) + ScU(s) \div 2) \div ScU(s)
+ScOn1(x, s, t) == IF s[1] = 0 THEN AbsI(x) <= t
+                  ELSE AbsI(ScY(x, s) - ScLoc1(x, s) * ScU(s)) <= ((t \div 16) + 2) * 2 * s[1] * s[3]
+ScaledLoc(sc, x) == <<ScLoc1(x[1], sc[1]), ScLoc1(x[2], sc[2]), ScLoc1(x[3], sc[3])>>
+ScaledOn(sc, x, t) == ScOn1(x[1], sc[1], t) /\ ScOn1(x[2], sc[2], t) /\ ScOn1(x[3], sc[3], t)
+\* number of cells porepy documents for a target cell size cs = <<num, den>> on an extent L = <<num, den>>:
+\* round(L / cs), at least one
+RoundedCells(L, cs) == LET a == L[1] * cs[2]  b == L[2] * cs[1]
+                           r == (2 * a + b) \div (2 * b) IN IF r < 1 THEN 1 ELSE r
 =============================================================================
